@@ -110,6 +110,12 @@ var (
 	tSt    = &ty{k: "st"}
 	tSet   = &ty{k: "set"}  // set (map[string]struct{}) -> GoIO.GoSet
 	tSMap  = &ty{k: "smap"} // map[string]string -> GoIO.SMap
+	tDirEs = &ty{k: "dirents"}
+	tDirE  = &ty{k: "dirent"}
+	tDecls = &ty{k: "godecls"} // the Decls of a parsed Go file
+	tDecl  = &ty{k: "godecl"}
+	tBools = &ty{k: "bools"} // ...CleanOpts, each represented by its only field Sort
+	tCOpt  = &ty{k: "cleanopt"}
 	tBad   = &ty{k: "?"}
 )
 
@@ -164,6 +170,18 @@ func (t *ty) lean() string {
 		return "GoSnaps.GoIO.GoSet"
 	case "smap":
 		return "GoSnaps.GoIO.SMap"
+	case "dirents":
+		return "List GoSnaps.GoIO.DirEntry"
+	case "dirent":
+		return "GoSnaps.GoIO.DirEntry"
+	case "godecls":
+		return "List GoSnaps.GoIO.GoDecl"
+	case "godecl":
+		return "GoSnaps.GoIO.GoDecl"
+	case "bools":
+		return "List Bool"
+	case "cleanopt":
+		return "Bool"
 	case "registry":
 		return "GoSnaps.GoIO.Registry"
 	case "sregistry":
@@ -211,6 +229,7 @@ type funcSpec struct {
 	extFns  map[string]param // callee -> function parameter
 	recv    string           // methods: "<receiver name>:<kind>" (kind registry | sregistry); the receiver is in-out
 	out     string           // generated file: "" = Funcs.lean, "IO" = FuncsIO.lean
+	prints  bool             // fx = "rw" functions that call fmt.Println: parameter and result `stdout`
 	fx      string           // "" pure; "ro" reads the file system (parameters io, fs); "rw" also returns the new fs
 	inout   []string         // pointer parameters whose final value is returned (after fs, before the results)
 }
@@ -253,6 +272,18 @@ var funcSpecs = []funcSpec{
 	{pkg: "snaps", name: "occurrences", sig: "tests:map[string]int,count:int,formatter:func(string, int) string->set", out: "IO"},
 	{pkg: "snaps", name: "examineSnaps", sig: "registry:map[string]map[string]int,used:[]string,runOnly:string,count:int,update:bool,sort:bool->[]string,error", out: "IO", fx: "rw",
 		extra:   []param{{"regexpMatchString", fnOf(pairOf(tBool, tBool), tText, tText)}, {"skipped", tTexts}}},
+	{pkg: "snaps", name: "isFileSkipped", sig: "dir:string,filename:string,runOnly:string->bool", out: "IO",
+		extra:  []param{{"parseFile", fnOf(pairOf(tDecls, tErr), tText)}, {"regexpMatchString", fnOf(pairOf(tBool, tBool), tText, tText)}},
+		extFns: map[string]param{"regexp.MatchString": {"regexpMatchString", fnOf(pairOf(tBool, tBool), tText, tText)}}},
+	{pkg: "snaps", name: "examineFiles", sig: "registry:map[string]map[string]int,registeredStandaloneTests:set,runOnly:string,shouldUpdate:bool->named,[]string", out: "IO", fx: "rw", prints: true,
+		extra: []param{{"parseFile", fnOf(pairOf(tDecls, tErr), tText)}, {"regexpMatchString", fnOf(pairOf(tBool, tBool), tText, tText)}}},
+	{pkg: "snaps", name: "Clean", sig: "m:*testing.M,opts:...CleanOpts->", out: "IO", fx: "st",
+		extra: []param{{"parseFile", fnOf(pairOf(tDecls, tErr), tText)}, {"regexpMatchString", fnOf(pairOf(tBool, tBool), tText, tText)},
+			{"runFlag", tText}, {"countFlag", pairOf(tInt, tErr)}, {"summaryFn", fnOf(tText, tTexts, tTexts, tInt, tMap1, tBool)}},
+		externs: map[string]param{"flag.Lookup(\"test.run\").Value.String()": {"runFlag", tText},
+			"strconv.Atoi(flag.Lookup(\"test.count\").Value.String())": {"countFlag", pairOf(tInt, tErr)},
+			"skippedTests.values": {"st.skipped", tTexts}},
+		extFns: map[string]param{"summary": {"summaryFn", fnOf(tText, tTexts, tTexts, tInt, tMap1, tBool)}}},
 	// the Match* flows
 	{pkg: "snaps", name: "handleError", sig: "t:testingT,err:any->", out: "IO", fx: "st"},
 	{pkg: "snaps", name: "takeSnapshot", sig: "objects:[]any->string", out: "IO"},
@@ -276,6 +307,7 @@ var funcSpecs = []funcSpec{
 		extra: []param{{"trimpath", tBool}, {"caller", tText}, {"runMatcher", fnOf(pairOf(tText, tMErrs), tMatch, tText)},
 			{"validate", fnOf(pairOf(tText, tErr), tText)}},
 		extFns: map[string]param{"validateYAML": {"validate", fnOf(pairOf(tText, tErr), tText)}}},
+	{pkg: "snaps", name: "trackSkip", sig: "t:testingT->", out: "IO", fx: "st"},
 	{pkg: "snaps", name: "matchStandaloneJSON", sig: "c:*Config,t:testingT,input:any,matchers:...match.JSONMatcher->", out: "IO", fx: "st",
 		extra: []param{{"trimpath", tBool}, {"caller", tText}, {"runMatcher", fnOf(pairOf(tText, tMErrs), tMatch, tText)},
 			{"validate", fnOf(pairOf(tText, tErr), tText)}, {"takeJSON", fnOf(tText, tCfg, tText)}},
@@ -299,6 +331,8 @@ var libTable = map[string]libFn{
 	"filepath.Dir":       {lean: "GoSnaps.fpDir", params: []*ty{tText}, res: tText},
 	"filepath.IsAbs":     {lean: "GoSnaps.fpIsAbs", params: []*ty{tText}, res: tBool},
 	"filepath.Join":      {lean: "GoSnaps.fpJoin", params: []*ty{tText}, variadic: true, res: tText},
+	"path.Join":          {lean: "GoSnaps.fpJoin", params: []*ty{tText}, variadic: true, res: tText},
+	"strings.Contains":   {lean: "GoSnaps.containsSub", params: []*ty{tText, tText}, res: tBool},
 	"filepath.Rel":       {lean: "GoSnaps.GoSem.filepathRel", params: []*ty{tText, tText}, res: pairOf(tText, tBool)},
 	"strings.TrimSuffix": {lean: "GoSnaps.trimSuffix", params: []*ty{tText, tText}, res: tText},
 	"strings.HasPrefix":  {lean: "GoSnaps.hasPrefix", params: []*ty{tText, tText}, res: tBool},
@@ -485,6 +519,8 @@ func goType(e ast.Expr) *ty {
 			return tTexts
 		case "match.JSONMatcher", "match.YAMLMatcher":
 			return tMatchs
+		case "CleanOpts":
+			return tBools
 		}
 	case *ast.SelectorExpr:
 		switch selName(e) {
@@ -517,6 +553,8 @@ func goType(e ast.Expr) *ty {
 				return tScan
 			case "os.File":
 				return tFile
+			case "testing.M":
+				return tUnit
 			}
 		}
 	}
@@ -586,6 +624,9 @@ func (t *ftr) exprH(e ast.Expr, hint *ty) ex {
 					}
 					return ex{t.ln(id.Name) + "." + e.Sel.Name, ft, false}
 				}
+			}
+			if ty := t.lookup(id.Name); ty != nil && ty.k == "cleanopt" && e.Sel.Name == "Sort" {
+				return ex{t.ln(id.Name), tBool, false}
 			}
 			if ty := t.lookup(id.Name); ty != nil && ty.k == "merr" {
 				switch e.Sel.Name {
@@ -708,6 +749,8 @@ func (t *ftr) exprH(e ast.Expr, hint *ty) ex {
 		switch x.t.k {
 		case "text":
 			et = tByte
+		case "bools":
+			et = tCOpt
 		case "texts":
 			et = tText
 		default:
@@ -922,7 +965,7 @@ func (t *ftr) call(e *ast.CallExpr) ex {
 			if len(e.Args) == 1 {
 				x := t.expr(e.Args[0])
 				switch x.t.k {
-				case "text", "texts", "merrs", "matchers", "map1", "map2", "smap", "set":
+				case "text", "texts", "merrs", "matchers", "map1", "map2", "smap", "set", "bools":
 					// (a Go map holds each key once, as the association lists built by map*Set do)
 				default:
 					return t.fail("len of %s", x.t.lean())
@@ -1126,6 +1169,15 @@ func (t *ftr) defineAs(b *strings.Builder, ind, name, lean string, x ex) {
 }
 
 func (t *ftr) assign(b *strings.Builder, ind string, s *ast.AssignStmt) {
+	// _ = x: evaluates a variable and discards it
+	if len(s.Lhs) == 1 && len(s.Rhs) == 1 && s.Tok == token.ASSIGN {
+		if l, ok := s.Lhs[0].(*ast.Ident); ok && l.Name == "_" {
+			if r, ok := s.Rhs[0].(*ast.Ident); ok && t.lookup(r.Name) != nil {
+				fmt.Fprintf(b, "%s-- %s\n", ind, t.src(s))
+				return
+			}
+		}
+	}
 	// an effectful call as the whole right-hand side: emit it first, then use its results
 	var pre *ex
 	if len(s.Rhs) == 1 {
@@ -1461,6 +1513,9 @@ func (t *ftr) retPrefix() []string {
 	var pre []string
 	if t.sp.fx == "rw" {
 		pre = append(pre, "fs")
+		if t.sp.prints {
+			pre = append(pre, "stdout")
+		}
 	}
 	if t.sp.fx == "st" {
 		pre = append(pre, "st")
@@ -1671,11 +1726,37 @@ func (t *ftr) rangeStmt(s *ast.RangeStmt, ind string, res *ty) string {
 	if xs.t.k == "map1" {
 		return t.rangeMap1(s, xs, k, v, ind, res)
 	}
-	if xs.t.k != "texts" && xs.t.k != "merrs" && xs.t.k != "matchers" {
+	if (xs.t.k == "map2" || xs.t.k == "set") && v == "_" && k != "_" {
+		// for key := range m: the keys, in list order (Go's order is unspecified)
+		keys := xs.s
+		if xs.t.k == "map2" {
+			keys = "(" + xs.s + ".map (·.1))"
+		}
+		whole, _ := assignedIn(s.Body)
+		if whole[k] {
+			t.stmtFail(&b, ind, "the loop body assigns the range key")
+			return b.String()
+		}
+		lk := leanIdent(k)
+		if t.lookup(k) != nil {
+			t.tmp++
+			lk = fmt.Sprintf("%s_%d", leanIdent(k), t.tmp)
+		}
+		fmt.Fprintf(&b, "%sfor %s in %s do\n", ind, lk, keys)
+		t.push()
+		t.bind(k, tText)
+		if lk != leanIdent(k) {
+			t.ren[len(t.ren)-1][k] = lk
+		}
+		b.WriteString(t.block(s.Body.List, ind+"  ", res))
+		t.pop()
+		return b.String()
+	}
+	if xs.t.k != "texts" && xs.t.k != "merrs" && xs.t.k != "matchers" && xs.t.k != "dirents" && xs.t.k != "godecls" {
 		t.stmtFail(&b, ind, "range over %s (only []string is supported; a string ranges over runes)", xs.t.lean())
 		return b.String()
 	}
-	elemT := map[string]*ty{"texts": tText, "merrs": tMErr, "matchers": tMatch}[xs.t.k]
+	elemT := map[string]*ty{"texts": tText, "merrs": tMErr, "matchers": tMatch, "dirents": tDirE, "godecls": tDecl}[xs.t.k]
 	whole, indexed := assignedIn(s.Body)
 	if whole["?"] || (k != "_" && whole[k]) {
 		t.stmtFail(&b, ind, "the loop body assigns the range index")
@@ -1856,6 +1937,9 @@ func translateFunc(pkg *pkgInfo, sp *funcSpec, consts map[string]bool, funcs map
 		binders = append(binders, "(io : GoSnaps.GoIO.IOFail)", "(st : GoSnaps.GoIO.St)")
 	} else if sp.fx != "" {
 		binders = append(binders, "(io : GoSnaps.GoIO.IOFail)", "(fs : GoSnaps.FS)")
+		if sp.prints {
+			binders = append(binders, "(stdout : List UInt8)")
+		}
 	}
 	for _, p := range sp.extra {
 		binders = append(binders, "("+p.name+" : "+p.t.lean()+")")
@@ -1912,20 +1996,37 @@ func translateFunc(pkg *pkgInfo, sp *funcSpec, consts map[string]bool, funcs map
 			ffail("funcs: %s has no parameter %s", sp.name, n)
 		}
 	}
+	for _, pt := range pts {
+		if pt.k == "bools" && !pkg.structIs("CleanOpts", "Sort:bool") {
+			ffail("funcs: %s: CleanOpts is no longer a struct with the single field Sort bool", sp.name)
+		}
+	}
 	var rts []*ty
+	var namedRes []param
 	if fd.Type.Results != nil {
 		for _, f := range fd.Type.Results.List {
 			rt := goType(f.Type)
 			if rt == nil {
 				ffail("funcs: %s: unsupported result type %s", sp.name, t.src(f.Type))
 			}
-			rts = append(rts, rt)
+			if len(f.Names) == 0 {
+				rts = append(rts, rt)
+			}
+			for _, n := range f.Names {
+				// a named result is a local variable that starts at its zero value; every return of the
+				// translated functions names its operands explicitly (a bare `return` is rejected)
+				rts = append(rts, rt)
+				namedRes = append(namedRes, param{n.Name, rt})
+			}
 		}
 	}
 	t.rets = rts
 	var all []*ty
 	if sp.fx == "rw" {
 		all = append(all, &ty{k: "fs"})
+		if sp.prints {
+			all = append(all, tText)
+		}
 	}
 	if sp.fx == "st" {
 		all = append(all, tSt)
@@ -1991,12 +2092,23 @@ func translateFunc(pkg *pkgInfo, sp *funcSpec, consts map[string]bool, funcs map
 	var pre strings.Builder
 	if sp.fx == "rw" {
 		pre.WriteString("  let mut fs := fs\n")
+		if sp.prints {
+			pre.WriteString("  let mut stdout := stdout\n")
+		}
 	}
 	if sp.fx == "st" {
 		pre.WriteString("  let mut st := st\n")
 	}
 	for _, nm := range assignedParams {
 		fmt.Fprintf(&pre, "  let mut %s := %s\n", leanIdent(nm), leanIdent(nm))
+	}
+	for _, nr := range namedRes {
+		zero := map[string]string{"texts": "([] : List (List UInt8))", "text": "([] : List UInt8)", "int": "(0 : Int)", "bool": "false", "err": "GoSnaps.GoIO.Err.nil"}[nr.t.k]
+		if zero == "" {
+			ffail("funcs: %s: named result %s of type %s", sp.name, nr.name, nr.t.lean())
+		}
+		fmt.Fprintf(&pre, "  let mut %s := %s\n", leanIdent(nr.name), zero)
+		t.bind(nr.name, nr.t)
 	}
 	for _, nm := range sp.inout {
 		fmt.Fprintf(&pre, "  let mut %s := %s\n", leanIdent(nm), leanIdent(nm))
